@@ -572,23 +572,50 @@ def setup():
     return 0
 
 
+def canon_all(line, x):
+    """canonicalisation used by --replay: the union of what the checks apply"""
+    if x.startswith("same "):
+        x = x[5:]
+    w = line.split(" ")
+    if len(w) >= 2 and w[0] in ("rln", "lock") and w[1] in ("prove_req", "prove_wit", "prove_ext") and x.startswith("ok ") and len(x) >= 3 + 256 and " " not in x[3:]:
+        x = "ok " + (x[3 + 256:] or "-")
+    if len(w) >= 2 and w[0] in ("rln", "lock") and w[1] == "prove_raw" and x.startswith("ok ") and len(x) == 3 + 256:
+        x = "ok -"
+    if w[0] == "calcwit" and x.startswith("["):
+        x = x.split("]")[0] + "]"
+    if w[0] == "graph" and " bytes=" in x:
+        x = x.split(" bytes=")[0]
+    return x
+
+
 def replay(path):
     o = json.load(open(path))
     pid = o.get("property")
+    print(f"replay {path} (property {pid}, kind {o.get('kind')}, stream {o.get('stream')})")
+    if o.get("detail"):
+        print("recorded: " + str(o["detail"])[:600])
     if o.get("kind") == "obligation":
-        print(f"replay {path}: obligation(s) that no longer check:")
-        print(json.dumps(o.get("broken_obligations"), indent=1))
-        print(json.dumps(o.get("correspondence_disagreements"), indent=1))
+        print("theorem(s) / correspondence stream(s) that no longer check:")
+        print(json.dumps(o.get("broken_obligations"), indent=1)[:3000])
+        print(json.dumps(o.get("correspondence_disagreements"), indent=1)[:3000])
+        return 1
+    ops = o.get("ops") or []
+    args = o.get("impl_args") or ["run"]
+    if not ops or args[0] not in ("run",):
+        # produced by a special mode (several builds, thread pools, the reference generator): re-run the property's check
+        print(f"this replay is re-executed by the check itself: python3 check.py {pid}")
         return 1
     build_driver()
     zkh = build_harness()
-    ops = o.get("ops") or []
-    impl = run_impl(zkh, ops, tuple(o.get("impl_args", ["run"])))
+    impl = [canon_all(l, x) for l, x in zip(ops, run_impl(zkh, ops, tuple(args)))]
     specl = run_lean("spec", ops)
+    model = run_lean("model", ops)
     bad = False
-    for l, a, b in zip(ops, impl, specl):
-        mark = "  " if (a == b or "n/a" in (a, b)) else "!!"
-        bad |= mark == "!!"
-        print(f"{mark} {l}\n     impl: {a}\n     spec: {b}")
-    print(f"replay of {pid}: {'property fails on this input' if bad else 'no difference (not reproduced)'}")
+    for l, a, b, m in zip(ops, impl, specl, model):
+        a2 = "reject" if (a in ("reject-false", "reject-err") and b in ("reject", "accept")) else a
+        differs = not (a2 == b or "n/a" in (a2, b))
+        mark = "!!" if differs else ("~~" if ("n/a" not in (a, m) and a != m) else "  ")
+        bad |= differs
+        print(f"{mark} {l[:160]}\n     impl : {a[:200]}\n     spec : {b[:200]}" + (f"\n     model: {m[:200]}" if mark != "  " else ""))
+    print(f"replay of {pid}: {'the implementation contradicts the specification on this input' if bad else 'no difference on the current tree (not reproduced)'}")
     return 1 if bad else 0
